@@ -200,6 +200,7 @@ func ruleCbrtExactness(w *World, r *RuleResult) {
 	}
 	key := "(*Context).Cbrt | exactness re-check"
 	ok := false
+	var cubeMuls []*ssa.Call
 	for _, b := range f.Blocks {
 		rt, isRet := b.Instrs[len(b.Instrs)-1].(*ssa.Return)
 		if !isRet || len(rt.Results) != 2 {
@@ -221,9 +222,31 @@ func ruleCbrtExactness(w *World, r *RuleResult) {
 			}
 			// one side is a copy of the operand x, the other the cube computed from d
 			a0, a1 := basePtr(call.Common().Args[0]), basePtr(call.Common().Args[1])
+			di := destArgIndex(w, f)
+			xi := -1
+			for i, p := range f.Params {
+				if i != di && isDecimalPtr(p.Type()) {
+					xi = i
+				}
+			}
 			fromX := func(v ssa.Value) bool {
+				// a copy of the operand or of its magnitude
+				for _, cn := range []string{"(*Decimal).Set", "(*Decimal).Abs"} {
+					for _, c := range w.callsTo(f, cn) {
+						if xi >= 0 && basePtr(c.Common().Args[0]) == v && c.Common().Args[1] == ssa.Value(f.Params[xi]) {
+							return true
+						}
+					}
+				}
+				return false
+			}
+			// the candidate: the destination itself, or a local that is copied into the destination
+			isCand := func(v ssa.Value) bool {
+				if v == ssa.Value(f.Params[di]) {
+					return true
+				}
 				for _, c := range w.callsTo(f, "(*Decimal).Set") {
-					if basePtr(c.Common().Args[0]) == v && c.Common().Args[1] == ssa.Value(f.Params[paramIndex(f, "x")]) {
+					if c.Common().Args[0] == ssa.Value(f.Params[di]) && basePtr(c.Common().Args[1]) == basePtr(v) {
 						return true
 					}
 				}
@@ -233,8 +256,9 @@ func ruleCbrtExactness(w *World, r *RuleResult) {
 				n := 0
 				for _, c := range w.callsTo(f, "(*ErrDecimal).Mul") {
 					a := c.Common().Args
-					if basePtr(a[1]) == v && (a[2] == ssa.Value(f.Params[paramIndex(f, "d")]) || a[3] == ssa.Value(f.Params[paramIndex(f, "d")])) {
+					if basePtr(a[1]) == v && (isCand(a[2]) || isCand(a[3])) {
 						n++
+						cubeMuls = append(cubeMuls, c)
 					}
 				}
 				return n >= 2
@@ -257,8 +281,11 @@ func ruleCbrtExactness(w *World, r *RuleResult) {
 			}
 		}
 		rounds := w.callsTo(f, "(*Context).round")
-		if exact != nil && len(rounds) > 0 {
-			final := rounds[len(rounds)-1]
+		for _, final := range rounds {
+			// the roundings of the destination itself (the candidate's rounding writes a local)
+			if exact == nil || basePtr(final.Common().Args[1]) != ssa.Value(f.Params[destArgIndex(w, f)]) {
+				continue
+			}
 			for _, b := range f.Blocks {
 				rt, isRet := b.Instrs[len(b.Instrs)-1].(*ssa.Return)
 				if !isRet || !(b == final.Block() || reaches(final.Block(), b)) {
@@ -278,6 +305,61 @@ func ruleCbrtExactness(w *World, r *RuleResult) {
 		r.ok(key, w.pos(f.Pos()), "(0, nil) is returned only under operand == d·d·d; otherwise the rounding flags", true)
 	} else if countKey(r, key) == 0 {
 		r.bad(key, w.pos(f.Pos()), "no return of zero flags guarded by `operand copy`.Cmp(d³) == 0: perfect cubes would report Inexact, or inexact roots would report exact")
+	}
+	// the cube is computed without rounding: a p-digit root has a 3p-digit cube
+	if ok && len(cubeMuls) > 0 {
+		k2 := "(*Context).Cbrt | the cube of the candidate is computed exactly"
+		exactCtx := true
+		for _, m := range cubeMuls {
+			// receiver: an ErrDecimal made from BaseContext itself (Precision 0 = no rounding)
+			okM := false
+			for _, mk := range w.callsTo(f, "MakeErrDecimal") {
+				if gl, isG := basePtr(mk.Common().Args[0]).(*ssa.Global); isG && gl.Name() == "BaseContext" {
+					if _, viaCopy := mk.Common().Args[0].(*ssa.Call); !viaCopy && w.sameErrDecimal(f, m.Common().Args[0], mk) {
+						okM = true
+					}
+				}
+			}
+			if !okM {
+				exactCtx = false
+			}
+		}
+		if exactCtx {
+			r.ok(k2, w.pos(f.Pos()), "d·d·d is formed under BaseContext (Precision 0: no digit limit)", true)
+		} else {
+			r.bad(k2, w.pos(f.Pos()), "the cube compared with the operand is computed in a precision-limited context: the cube of a p-digit root has up to 3p digits, so perfect cubes whose root uses the whole precision are reported Inexact (Cbrt(100544625) = 465 at precision 3)")
+		}
+		// the candidate was rounded to nearest, whatever the caller's mode
+		k3 := "(*Context).Cbrt | the candidate tested for exactness is rounded to nearest"
+		halfEven := w.rounderConsts()["RoundHalfEven"]
+		nearest := false
+		for _, rc := range w.callsTo(f, "(*Context).round") {
+			isCandDest := false
+			for _, m := range cubeMuls {
+				for _, a := range m.Common().Args[2:] {
+					if basePtr(a) == basePtr(rc.Common().Args[1]) {
+						isCandDest = true
+					}
+				}
+			}
+			if !isCandDest {
+				continue
+			}
+			base := basePtr(rc.Common().Args[0])
+			if base == ssa.Value(f.Params[0]) {
+				continue // the caller's own context: its mode may be directed
+			}
+			for _, st := range storesIn(f) {
+				if fa, isFA := st.Addr.(*ssa.FieldAddr); isFA && basePtr(fa.X) == base && w.exprOf(f, st.Addr).Name == "Rounding" && w.exprOf(f, st.Val).String() == halfEven {
+					nearest = true
+				}
+			}
+		}
+		if nearest {
+			r.ok(k3, w.pos(f.Pos()), "rounded under a private context with Rounding = RoundHalfEven", true)
+		} else {
+			r.bad(k3, w.pos(f.Pos()), "the iterate is an approximation; rounded in the caller's (possibly directed) mode a perfect cube's candidate lands one unit off and the exact root is missed (Cbrt(8) = 2.01 under RoundUp at precision 3)")
+		}
 	}
 	for _, name := range []string{"(*Context).Sqrt", "(*Context).Cbrt"} {
 		g := w.fn(name)
@@ -577,4 +659,15 @@ func ruleSubIsAdd(w *World, r *RuleResult) {
 	} else {
 		r.bad(key, w.pos(add.Pos()), fmt.Sprintf("subtraction is not exactly `add with y's sign flipped` (yn expression found: %v, uses of the flag: %d)", ok, uses))
 	}
+}
+
+// sameErrDecimal: v is (the address of) the ErrDecimal local initialised from the MakeErrDecimal call mk.
+func (w *World) sameErrDecimal(f *ssa.Function, v ssa.Value, mk *ssa.Call) bool {
+	base := basePtr(v)
+	for _, st := range storesIn(f) {
+		if st.Val == ssa.Value(mk) && basePtr(st.Addr) == base {
+			return true
+		}
+	}
+	return false
 }
